@@ -428,14 +428,18 @@ Proof.
       replace (den * Z.abs (f_mag C b * Dn - Nm) * S) with (den * Z.abs (f_mag C b * Dn * S - Nm * S)) by (rewrite EA; lia).
       rewrite HR.
       assert (Z.abs (R * G - V * G) <= 128 * u * G).
-      { replace (R * G - V * G) with ((R - V) * G) by lia. rewrite Z.abs_mul, (Z.abs_eq G) by lia. nia. }
-      pose proof (abs_tri (R * G) (V * G) (Nm * S)). nia.
+      { replace (R * G - V * G) with ((R - V) * G) by lia. rewrite Z.abs_mul, (Z.abs_eq G) by lia.
+        apply Z.mul_le_mono_nonneg_r; [lia | exact Herr]. }
+      pose proof (abs_tri (R * G) (V * G) (Nm * S)) as Htri.
+      apply Z.mul_le_mono_nonneg_l; [lia|]. lia.
     + replace (w * 2 ^ f_exp b * Dn * S) with (w * 2 ^ f_exp b * (S * Dn)) by lia. rewrite HSD.
       replace (o + 8) with (8 + o) by lia. rewrite (pow2_split 8 o) by lia. change (2 ^ 8) with 256.
       pose proof (f_exp_bound C b HC Hok).
       rewrite (pow2_split (f_exp b) o) in Hue by lia.
       assert (0 < 2 ^ o) by (apply pow2_pos; lia).
-      assert (w * 256 * u * G <= w * 256 * (2 ^ f_exp b * 2 ^ o) * G) by nia. lia.
+      assert (w * 256 * u * G <= w * 256 * (2 ^ f_exp b * 2 ^ o) * G).
+      { apply Z.mul_le_mono_nonneg_r; [lia|]. apply Z.mul_le_mono_nonneg_l; [lia|]. exact Hue. }
+      lia.
 Qed.
 
 (* Overflow clauses *)
